@@ -119,6 +119,24 @@ def c09(tier):
     return [mint_h('VHarnessSignAndFees', '1 arbitrary output against 2 keysets; fee of 0..3 inputs over both keysets, ppk < 2^32', must_reach=('signed', 'refused')),
             mint_h('VHarnessLoadMint', 'fresh start, restart with/without rotation, runtime rotation, restart: fees symbolic (< 4096), all 60 keys of every keyset compared', summaries=('h2c', 'nut10-none', 'loadmint-env'), must_reach=('done',), timeout_s=1200),
             Harness('VHarnessGenerateKeyset', 'crypto', F, models=('std', 'crypto', 'json'), crypto_mode='euf', bounds='every 32-byte seed, every derivation index < 2^31; all 60 keys and the id', must_reach=('done',))]
+W_FILES = ['wallet/zz_verif_env.go', 'wallet/zz_verif_send.go', 'wallet/zz_verif_p2pkkey.go']
+def w_h(name, bounds, **kw):
+    kw.setdefault('summaries', ('h2c', 'dleq'))
+    kw.setdefault('crypto_mode', 'euf')
+    return Harness(name, 'wallet', W_FILES, models=('std', 'crypto', 'json', 'threads', 'wallet'), bounds=bounds, **kw)
+WALLET_ASSUME = COMMON_ASSUME + [
+    'wallet store modelled at the storage.WalletDB interface by an in-memory implementation keyed as bolt.go keys its buckets (bolt.go itself is outside)',
+    'the mint is an honest-contract fake behind wallet/client at the HTTP level (fee rule, double-spend check, signs with DLEQ); the real client.go JSON (un)marshalling is executed',
+    'denominations 2^0..2^7; held proofs have concrete distinct secrets',
+    'group operations uninterpreted with cancellation instances; DLEQ generation/verification summarised as constructor/recogniser (its algebra is C10)',
+]
+def c18(tier):
+    hs = [w_h('VHarnessSelect', 'offline selection kernel: 1..3 held proofs of 2^0..2^4 on one keyset, ppk in {0,100,250,500,1000,2000}, every amount in 1..balance', must_reach=('selected', 'selection-failed')),
+          w_h('VHarnessSend', 'Send end to end (selection, swap at the fake mint, change): 1..2 held proofs of 2^0..2^3 on active/inactive keysets, every ppk pair of the set, every amount, fees on/off', must_reach=('sent',), timeout_s=900)]
+    if tier == 'thorough':
+        hs += [w_h('VHarnessSelectWide', 'selection kernel: 1..4 proofs of 2^0..2^5', must_reach=('selected',), timeout_s=3000),
+               w_h('VHarnessSendWide', 'Send end to end: 1..3 proofs of 2^0..2^4', must_reach=('sent',), timeout_s=3000)]
+    return hs
 def c10(tier):
     kw = dict(models=('std', 'crypto', 'json'), crypto_mode='alg')
     return [Harness('VHarnessBDHKE', 'crypto', ['crypto/zz_verif_bdhke.go'], summaries=('h2c',), bounds='every secret (string of any length), every blinding factor, every key: all symbolic', must_reach=('done',), **kw),
@@ -141,6 +159,7 @@ C10_ASSUME = COMMON_ASSUME + [
 ]
 
 PROPS = {
+    'C18': dict(harnesses=c18, level='bounded symbolic verification of the real selection / swap-to-send code against an honest-contract mint', assumptions=WALLET_ASSUME, outside=['bolt.go', 'amounts above 2^5 per proof, more than 4 held proofs']),
     'C04': dict(harnesses=c04, level='bounded symbolic verification: soundness formula, completeness and explicit mutation classes', assumptions=MINT_ASSUME + ['unforgeability stated explicitly: an arbitrary C is not the valid signature of its secret under one of the mint keys', 'distinct denominations / keysets have distinct private keys'], outside=['BIP-32 derivation collisions', 'hash-to-curve collisions']),
     'C09': dict(harnesses=c09, level='bounded symbolic verification of LoadMint / RotateKeyset / GenerateKeyset executed whole over the storage model', assumptions=MINT_ASSUME + C11_ASSUME, outside=['BIP-32 itself', 'file system, migration runner (InitSQLite summarised as: returns the database of that directory)']),
     'C11': dict(harnesses=c11, level='bounded symbolic verification: equality with reference terms written from NUT-00/02/13 over the same uninterpreted primitives', assumptions=C11_ASSUME, outside=['the primitives themselves (library code)', 'keyset ids shorter than 8 bytes (DeriveKeysetPath indexes 8 bytes)']),
